@@ -37,6 +37,13 @@ def capture(opti, probe_seed, with_fun=False):
     x0 = _arr(opti.debug.value(x, ini)) if nx else np.zeros(0)
     pv = _arr(opti.debug.value(p, ini)) if npar else np.zeros(0)
     rec = {"nx": nx, "ng": ng, "np": npar, "x0": x0, "p": pv, "f": [], "g": [], "lbg": None, "ubg": None}
+    # the bounds depend on the parameters only: evaluated on their own, so that a point at which a built-in integrator
+    # fails (CasADi then returns NaN for every output of that call) cannot blank them
+    try:
+        lbg, ubg = ca.Function("bounds", [p], [opti.lbg, opti.ubg])(pv)
+        rec["lbg"], rec["ubg"] = _arr(lbg), _arr(ubg)
+    except RuntimeError:
+        pass
     for xi in [x0] + probe_points(nx, probe_seed):
         try:
             f, g, lbg, ubg = F(xi, pv)
@@ -50,7 +57,8 @@ def capture(opti, probe_seed, with_fun=False):
             continue
         rec["f"].append(float(f))
         rec["g"].append(_arr(g))
-        rec["lbg"], rec["ubg"] = _arr(lbg), _arr(ubg)
+        if rec["lbg"] is None or np.all(np.isnan(rec["lbg"])):
+            rec["lbg"], rec["ubg"] = _arr(lbg), _arr(ubg)
     try:  # decision-variable entries ever created on this Opti (Opti drops unused ones from the NLP)
         adv = opti.advanced
         rec["nx_created"] = int(sum(sv.numel() for sv in adv.symvar() if adv.get_meta(sv).type == ca.OPTI_VAR))
